@@ -382,6 +382,31 @@ class Interp:
         it.dataclasses = cached[6]
         return it
 
+    def _repo_module_function(self, dotted_name):
+        """(FunctionDef, module tree) for `alias.name` when `alias` is a module of mindsdb_sql imported into the current module"""
+        parts = dotted_name.split('.')
+        if len(parts) != 2 or self.module is None or getattr(self, 'src', None) is None:
+            return None
+        alias, name = parts
+        for st in getattr(self.module, 'body', []):
+            target = None
+            if isinstance(st, ast.ImportFrom) and st.module and st.module.startswith('mindsdb_sql') and st.level == 0:
+                for a in st.names:
+                    if (a.asname or a.name) == alias:
+                        target = f'{st.module}.{a.name}'
+            elif isinstance(st, ast.Import):
+                for a in st.names:
+                    if a.name.startswith('mindsdb_sql') and (a.asname or a.name.split('.')[-1]) == alias and a.asname:
+                        target = a.name
+            if target:
+                f = target.replace('.', '/') + '.py'
+                if self.src.exists(f):
+                    t = self.src.tree(f)
+                    fn = next((n for n in t.body if isinstance(n, ast.FunctionDef) and n.name == name), None)
+                    if fn is not None:
+                        return fn, t
+        return None
+
     def _load_class(self, kind):
         """members of a repository class (unique by name) that was not among the files this interpreter was built from"""
         self.methods.setdefault(kind, {})
@@ -1204,6 +1229,12 @@ class Interp:
         if isinstance(f, ClassRef) and callable(self.stubs.get(f.name)):
             return self.stubs[f.name](self, *args, **kwargs)           # reached through a value (getattr(sa, 'nullsfirst')) instead of its dotted name
         if isinstance(f, ClassRef) and not f.name.split('.')[-1][:1].isupper():
+            # `utils.helper(...)` where `utils` is a module of the repository imported into this module: the function is interpreted from its own source
+            rf = self._repo_module_function(f.name)
+            if rf is not None:
+                fn_, mod_ = rf
+                self.fn_module[id(fn_)] = mod_
+                return self.call_function(fn_, args, kwargs, Env())
             raise AnalysisError(f'interpreter: call of the library function `{f.name}` is not modelled')
         if isinstance(f, ClassRef):
             # constructor of a repository class: a stand-in object with the keyword arguments as attributes
